@@ -165,18 +165,65 @@ theorem nextCursor_fullRun : ∀ (ticks : List Tick), nextCursor (fullRun ticks)
 
 theorem keys_distinct : keyState ≠ keyCall ∧ keyState ≠ keyCancel ∧ keyCall ≠ keyCancel := by decide
 
-theorem contMeta_state (tok call : Val) (c : Bool) : getFirst keyState (continuationMeta tok call c) = some tok := by
+/-- the client's own input metadata uses none of the transport's keys (over a pipe nothing strips
+them, so parity is only claimed for metadata that is the application's) -/
+def NoFw (md : List (Bytes × Bytes)) : Prop := ∀ kv ∈ md, isFramework kv.1 = false
+
+theorem isFw_keys : isFramework keyState = true ∧ isFramework keyCall = true ∧ isFramework keyCancel = true :=
+  ⟨(isFramework_iff _).mpr (Or.inl rfl), (isFramework_iff _).mpr (Or.inr (Or.inl rfl)),
+    (isFramework_iff _).mpr (Or.inr (Or.inr rfl))⟩
+
+theorem getFirst_litMeta_fw (k : Bytes) (hk : isFramework k = true) :
+    ∀ (md : List (Bytes × Bytes)), NoFw md → getFirst k (litMeta md) = none
+  | [], _ => rfl
+  | kv :: r, h => by
+    have hne : ¬ kv.1 = k := by
+      intro he
+      have := h kv (by simp)
+      rw [he, hk] at this; cases this
+    simp only [litMeta, List.map_cons, getFirst, hne, if_false]
+    exact getFirst_litMeta_fw k hk r (fun x hx => h x (by simp [hx]))
+
+theorem contMeta_state (tok call : Val) (c : Bool) (x : Meta) :
+    getFirst keyState (continuationMeta tok call c ++ x) = some tok := by
   simp [continuationMeta, getFirst]
 
-theorem contMeta_call (tok call : Val) (c : Bool) : getFirst keyCall (continuationMeta tok call c) = some call := by
+theorem contMeta_call (tok call : Val) (c : Bool) (x : Meta) :
+    getFirst keyCall (continuationMeta tok call c ++ x) = some call := by
   have := keys_distinct.1
   simp [continuationMeta, getFirst, this]
 
-theorem contMeta_cancel (tok call : Val) (c : Bool) :
-    (getFirst keyCancel (continuationMeta tok call c)).isSome = c := by
+theorem contMeta_cancel (tok call : Val) (c : Bool) (md : List (Bytes × Bytes)) (h : NoFw md) :
+    (getFirst keyCancel (continuationMeta tok call c ++ litMeta md)).isSome = c := by
   have h1 : ¬ keyState = keyCancel := keys_distinct.2.1
   have h2 : ¬ keyCall = keyCancel := keys_distinct.2.2
-  cases c <;> simp [continuationMeta, getFirst, h1, h2]
+  have h3 := getFirst_litMeta_fw keyCancel isFw_keys.2.2 md h
+  cases c <;> simp [continuationMeta, getFirst, h1, h2, h3]
+
+theorem litEntries_litMeta : ∀ (md : List (Bytes × Bytes)), litEntries (litMeta md) = md
+  | [] => rfl
+  | kv :: r => by simp [litMeta, litEntries]; exact litEntries_litMeta r
+
+theorem strip_litMeta : ∀ (md : List (Bytes × Bytes)), NoFw md → stripFramework (litMeta md) = litMeta md
+  | [], _ => rfl
+  | kv :: r, h => by
+    have hk := h kv (by simp)
+    have ih := strip_litMeta r (fun x hx => h x (by simp [hx]))
+    unfold stripFramework at ih ⊢
+    simp only [litMeta, List.map_cons, List.filter_cons, hk, Bool.not_false, if_true]
+    simp only [litMeta] at ih
+    rw [ih]
+
+/-- what the handler of a conformant client's exchange request sees: the client's own metadata -/
+theorem seen_of_contMeta (tok call : Val) (c : Bool) (md : List (Bytes × Bytes)) (h : NoFw md) :
+    litEntries (stripFramework (continuationMeta tok call c ++ litMeta md)) = md := by
+  obtain ⟨hs, hc, hx⟩ := isFw_keys
+  have : stripFramework (continuationMeta tok call c ++ litMeta md) = litMeta md := by
+    have hsl := strip_litMeta md h
+    unfold stripFramework at hsl ⊢
+    rw [List.filter_append, hsl]
+    cases c <;> simp [continuationMeta, hs, hc, hx]
+  rw [this, litEntries_litMeta]
 
 theorem resolveCall_ok (cfg : Cfg) (w : World) (inst : Nat) (cur : Cursor) :
     ∃ w1, resolveCall cfg w inst cur (some (.call cur.call)) = .ok w1 ∧ w1.minted = w.minted ∧ w1.calls = w.calls := by
@@ -193,8 +240,10 @@ theorem handleExchange_producer (cfg : Cfg) (w : World) (req : Req) (tok : Val) 
     ∃ w1, w1.minted = w.minted ∧ handleExchange cfg w req = producerContinuation cfg w1 cur req := by
   obtain ⟨w1, hres, hm, _⟩ := resolveCall_ok cfg w req.inst cur
   refine ⟨w1, hm, ?_⟩
+  have hmd' : req.md = continuationMeta tok (.call cur.call) false ++ litMeta [] := by rw [hmd]; simp [litMeta]
+  have hc := contMeta_cancel tok (.call cur.call) false [] (by intro kv h; cases h)
   unfold handleExchange
-  simp only [hmd, contMeta_state, contMeta_call, contMeta_cancel, hopen, hr, hd, hp, hres]
+  simp only [hmd', contMeta_state, contMeta_call, hc, hopen, hr, hd, hp, hres]
   simp
 
 theorem firstExc_mem : ∀ {l : List RBatch} {e : Err}, firstExc l = some e → RBatch.exc e ∈ l
@@ -373,7 +422,8 @@ theorem enforceBudgets_off {cfg : Cfg} (hW : cfg.maxResp = 0) (hE : cfg.maxExt =
 
 /-- an exchange request of a conformant client: the cast gates, then `exchangeCall` -/
 theorem handleExchange_exchange (cfg : Cfg) (w : World) (req : Req) (tok : Val) (cur : Cursor)
-    (hmd : req.md = continuationMeta tok (.call cur.call) false) (hopen : openCursor w tok = some cur)
+    (umd : List (Bytes × Bytes)) (hnf : NoFw umd)
+    (hmd : req.md = continuationMeta tok (.call cur.call) false ++ litMeta umd) (hopen : openCursor w tok = some cur)
     (hp : cur.st.producer = false) (hr : req.routeProducer = false) (hd : req.dynamic = cur.dyn) :
     ∃ w1, w1.minted = w.minted ∧
       handleExchange cfg w req =
@@ -382,8 +432,9 @@ theorem handleExchange_exchange (cfg : Cfg) (w : World) (req : Req) (tok : Val) 
          else exchangeCall cfg w1 cur req) := by
   obtain ⟨w1, hres, hm, _⟩ := resolveCall_ok cfg w req.inst cur
   refine ⟨w1, hm, ?_⟩
+  have hc := contMeta_cancel tok (.call cur.call) false umd hnf
   unfold handleExchange
-  simp only [hmd, contMeta_state, contMeta_call, contMeta_cancel, hopen, hr, hd, hp, hres]
+  simp only [hmd, contMeta_state, contMeta_call, hc, hopen, hr, hd, hp, hres]
   cases cur.dyn <;> cases req.schemaOk <;> simp
 
 /-- `handleExchangeCall` with both response caps off -/
@@ -415,13 +466,15 @@ theorem exchangeCall_uncapped (cfg : Cfg) (hW : cfg.maxResp = 0) (hE : cfg.maxEx
 theorem httpExchange_spec (cfg : Cfg) (hW : cfg.maxResp = 0) (hE : cfg.maxExt = 0) (route : Nat → Nat) (dyn : Bool) :
     ∀ (inputs : List InBatch) (n : Nat) (w : World) (tok : Val) (cur : Cursor),
       openCursor w tok = some cur → cur.st.producer = false → cur.dyn = dyn →
-      (dyn = false → cur.declared = true) →
+      (dyn = false → cur.declared = true) → (∀ b ∈ inputs, NoFw b.md) →
       httpExchange cfg route dyn inputs n w tok (.call cur.call) = pipeExchange cur.declared cur.st inputs := by
   intro inputs
   induction inputs with
-  | nil => intro n w tok cur _ _ _ _; rfl
+  | nil => intro n w tok cur _ _ _ _ _; rfl
   | cons b rest ih =>
-    intro n w tok cur hopen hp hd hstat
+    intro n w tok cur hopen hp hd hstat hnfall
+    have hnf : NoFw b.md := hnfall b (by simp)
+    have hnfrest : ∀ x ∈ rest, NoFw x.md := fun x hx => hnfall x (by simp [hx])
     unfold httpExchange pipeExchange
     simp only []
     by_cases hc : b.cancel = true
@@ -430,19 +483,23 @@ theorem httpExchange_spec (cfg : Cfg) (hW : cfg.maxResp = 0) (hE : cfg.maxExt = 
       simp only [hc', Bool.false_eq_true, if_false]
       -- the request, by its projections only
       generalize hreq : exchangeReq (route n) dyn tok (Val.call cur.call) b = req
-      have r_md : req.md = continuationMeta tok (.call cur.call) false := by rw [← hreq]; simp [exchangeReq, hc']
+      have r_md : req.md = continuationMeta tok (.call cur.call) false ++ litMeta b.md := by
+        rw [← hreq]; simp [exchangeReq, hc']
       have r_vals : req.vals = b.vals := by rw [← hreq]; rfl
       have r_ok : req.schemaOk = (b.kind != .bad) := by rw [← hreq]; rfl
       have r_ex : req.exact = decide (b.kind = .same) := by rw [← hreq]; rfl
       have r_dyn : req.dynamic = dyn := by rw [← hreq]; rfl
       have r_rp : req.routeProducer = false := by rw [← hreq]; rfl
       clear hreq
-      obtain ⟨w1, hm, hx⟩ := handleExchange_exchange cfg w req tok cur r_md hopen hp r_rp (by rw [r_dyn, hd])
+      obtain ⟨w1, hm, hx⟩ := handleExchange_exchange cfg w req tok cur b.md hnf r_md hopen hp r_rp (by rw [r_dyn, hd])
       rw [hx]
       have htick : turnTick cur req =
-          (if (decide (b.kind = InKind.same) || cur.declared) = true then (tickAt cur.st).getD defaultExchangeTick
+          (if (decide (b.kind = InKind.same) || cur.declared) = true then
+             instTick b.md ((tickAt cur.st).getD defaultExchangeTick)
            else untypedTick) := by
-        simp [turnTick, inputTyped, r_ex]
+        have hseen : seenLit req = b.md := by
+          unfold seenLit; rw [r_md]; exact seen_of_contMeta tok (.call cur.call) false b.md hnf
+        simp [turnTick, inputTyped, r_ex, hseen]
       by_cases hbad : b.kind = .bad
       · -- incompatible input
         have hsok : req.schemaOk = false := by rw [r_ok]; simp [hbad]
@@ -463,10 +520,12 @@ theorem httpExchange_spec (cfg : Cfg) (hW : cfg.maxResp = 0) (hE : cfg.maxExt = 
         simp only [hsok, Bool.not_true, Bool.and_false, Bool.false_eq_true, if_false, hbad, decide_false]
         rw [exchangeCall_uncapped cfg hW hE, htick, r_vals]
         have hinv := runActs_inv b.vals
-          (if (decide (b.kind = InKind.same) || cur.declared) = true then (tickAt cur.st).getD defaultExchangeTick
+          (if (decide (b.kind = InKind.same) || cur.declared) = true then
+             instTick b.md ((tickAt cur.st).getD defaultExchangeTick)
            else untypedTick) (Coll.new false) (collInv_new false)
         rcases hr : runActs b.vals (Coll.new false)
-          (if (decide (b.kind = InKind.same) || cur.declared) = true then (tickAt cur.st).getD defaultExchangeTick
+          (if (decide (b.kind = InKind.same) || cur.declared) = true then
+             instTick b.md ((tickAt cur.st).getD defaultExchangeTick)
            else untypedTick) with ⟨c, e⟩
         rw [hr] at hinv
         cases e with
@@ -480,7 +539,7 @@ theorem httpExchange_spec (cfg : Cfg) (hW : cfg.maxResp = 0) (hE : cfg.maxExt = 
             simp only [v1, v2, v3, Option.isNone_some, Bool.false_eq_true, if_false]
             have hih := ih (n + 1) { w1 with minted := w1.minted ++ [advance cur (cur.st.pos + 1)] }
               (.cursor w1.minted.length) (advance cur (cur.st.pos + 1)) (openCursor_new w1 _)
-              (by simpa [advance] using hp) (by simpa [advance] using hd) (by simpa [advance] using hstat)
+              (by simpa [advance] using hp) (by simpa [advance] using hd) (by simpa [advance] using hstat) hnfrest
             have hih' : httpExchange cfg route dyn rest (n + 1)
                 { w1 with minted := w1.minted ++ [advance cur (cur.st.pos + 1)] }
                 (.cursor w1.minted.length) (.call cur.call) =
@@ -549,7 +608,8 @@ theorem continuing_out (cfg : Cfg) (hE : cfg.maxExt = 0) (ticks : List Tick) (po
 /-- the init answer and everything after it, for a request already routed to its instance -/
 theorem httpRun_core (cfg : Cfg) (hW : cfg.maxResp = 0) (hE : cfg.maxExt = 0) (route : Nat → Nat) (fuel : Nat)
     (w : World) (rq : InitReq) (inputs : List InBatch)
-    (hfuel : rq.st.prog.length + 1 ≤ fuel) (hstat : rq.dynamic = false → rq.declared = true) :
+    (hfuel : rq.st.prog.length + 1 ≤ fuel) (hstat : rq.dynamic = false → rq.declared = true)
+    (hnf : ∀ b ∈ inputs, NoFw b.md) :
     (let r := handleInit cfg w rq
      let hdr := headerValue r.1.header
      let pre := logItems r.1.header ++ viewItems r.1.batches
@@ -581,7 +641,7 @@ theorem httpRun_core (cfg : Cfg) (hW : cfg.maxResp = 0) (hE : cfg.maxExt = 0) (r
           = some (Cursor.mk w.calls rq.st rq.dynamic rq.declared) := by
         simp [openCursor, cachePut_minted]
       have hx := httpExchange_spec cfg hW hE route rq.dynamic inputs 1 _ (.cursor w.minted.length)
-        (Cursor.mk w.calls rq.st rq.dynamic rq.declared) hcur hprod rfl hstat
+        (Cursor.mk w.calls rq.st rq.dynamic rq.declared) hcur hprod rfl hstat hnf
       have hlast : ∀ (l : List RBatch) (x : RBatch), (l ++ [x]).getLast? = some x := by
         intro l x; simp
       rw [firstExc_append, hv3, nextCursor_append, hv4, hlast]
@@ -656,9 +716,10 @@ theorem httpRun_core (cfg : Cfg) (hW : cfg.maxResp = 0) (hE : cfg.maxExt = 0) (r
 /-- **http_refines_pipe** (see `Vgi.Props.C11`). -/
 theorem httpRun_eq_pipeRun (cfg : Cfg) (hW : cfg.maxResp = 0) (hE : cfg.maxExt = 0) (route : Nat → Nat) (fuel : Nat)
     (w : World) (rq : InitReq) (inputs : List InBatch)
-    (hfuel : rq.st.prog.length + 1 ≤ fuel) (hstat : rq.dynamic = false → rq.declared = true) :
+    (hfuel : rq.st.prog.length + 1 ≤ fuel) (hstat : rq.dynamic = false → rq.declared = true)
+    (hnf : ∀ b ∈ inputs, NoFw b.md) :
     httpRun cfg route fuel w rq inputs = pipeRun rq inputs := by
-  have h := httpRun_core cfg hW hE route fuel w { rq with inst := route 0 } inputs hfuel hstat
+  have h := httpRun_core cfg hW hE route fuel w { rq with inst := route 0 } inputs hfuel hstat hnf
   have hp : pipeRun { rq with inst := route 0 } inputs = pipeRun rq inputs := rfl
   rw [← hp, ← h]
   rfl
